@@ -209,7 +209,7 @@ func joinTokens(t []string) string { return strings.Join(t, " ") }
 
 func checkC03(c *Ctx) {
 	c.Level = "exploration"
-	c.Rule = "inputs = (a) all token strings of length<=L over a 60-token alphabet, (b) single/double token mutations and every truncation of the repository's test inputs and of hand-written programs, (c) raw byte strings (invalid UTF-8, NUL, unterminated literals, deep nesting), (d) in-memory file trees for Load incl. cyclic import graphs, empty/odd files, conflicting package clauses, (e) Call/Func with wrong names, arities and result counts; x all subsets of {TreeDump, CodeDump, EvalImports}; distinct_nontrivial = distinct inputs that got past tokenize (reached parse or later)"
+	c.Rule = "inputs = (a) all token strings of length<=L over a 60-token alphabet, (b) single/double token mutations and every truncation of the repository's test inputs and of hand-written programs, 39 odd literal spellings (escapes the scanner accepts but the conversion rejects, extreme magnitudes, malformed numbers) in 46 literal-bearing positions (import paths with and without alias, declarations, operands, indexes of locals, keys, shifts, conversions ...), integer literals of valid programs replaced by large / negative values, (c) raw byte strings (invalid UTF-8, NUL, unterminated literals, deep nesting), (d) in-memory file trees for Load incl. cyclic import graphs, empty/odd files, conflicting package clauses, (e) Call/Func with wrong names, arities and result counts; x all subsets of {TreeDump, CodeDump, EvalImports}; distinct_nontrivial = distinct inputs that got past tokenize (reached parse or later)"
 	c.Assumptions = []string{"a call that does not return within 3 s is counted as hung (typical call < 1 ms)", "scripts that loop forever are cut by the verif instruction budget and must then surface as a run error", "Go stack exhaustion by unbounded script recursion is resource exhaustion (excepted by the property) and is prevented by the budget"}
 
 	// M1
@@ -303,6 +303,80 @@ func checkC03(c *Ctx) {
 			s.loadOnce(map[string]string{"main/main.go": joinTokensNL(rep)}, "main", nil)
 		}
 	}
+
+	// (b2) odd literals in every literal-bearing position: spellings the scanner accepts but the
+	// conversion may reject, extreme magnitudes, and constants that index tables of the VM
+	oddLits := []string{`"\400"`, `'\400'`, `"\xff"`, `'\''`, `"\u00e9"`, `'\u00e9'`, `"\U0010ffff"`, `'\U00110000'`, `"\z"`, "`raw\nline`", `''`, `'ab'`, `""`,
+		"1e999", "1.5e-999", "99999999999999999999", "2147483648", "-2147483649", "4294967296", "0x", "0xFFFFFFFFFF", "08", "0o17", "0b102", "0b11", "1_000", "1__0", ".5", "5.", "1e", "1e+", "0x1p4", "1i",
+		"404", "255", "99", "70000", "-1", "-404"}
+	litPositions := []string{
+		"import ( x LIT )", "import ( LIT )", "import LIT", "import x LIT", "import ( x LIT; \"fmt\" )",
+		"x := LIT", "var x = LIT", "var x int = LIT", "var x string = LIT", "var x float64 = LIT", "var x uint8 = LIT", "const k = LIT", "const ( a = LIT; b = a )",
+		"x := 1 + LIT", "x := LIT + LIT", "x := -LIT", "x := []int{1, 2}[LIT]", "x := \"abc\"[LIT]", "x := map[string]int{LIT: 1}", "x := []int{LIT: 1}",
+		"func f() int { xs := []int{1, 2}; return xs[LIT] }; f()", "func f() { xs := []int{1, 2}; xs[LIT] = 3 }; f()", "func f() int { m := map[int]int{}; return m[LIT] }; f()",
+		"func f() string { s := \"abc\"; return s[LIT:] }; f()", "func f(a ...int) int { return len(a) }; f(LIT, LIT)", "switch LIT { case LIT: }", "for i := 0; i < LIT; i++ { break }",
+		"type T struct { X int }; t := &T{X: LIT}; t.X", "x := 1 << LIT", "x := 1 / LIT", "x := 1 % LIT", "x := make([]int, LIT)", "x := LIT; x++", "println(LIT)", "x := float64(LIT)", "x := int8(LIT)", "x := string(LIT)",
+		"if LIT == LIT { }", "x := LIT.f", "LIT()", "x := f(LIT)", "return LIT", "go LIT", "x := []string{LIT}", "x := [LIT]int{}", "var x [LIT]int",
+	}
+	nlit := 0
+	for pi, pos := range litPositions {
+		for li, lit := range oddLits {
+			if strings.Contains(pos, "make(") || strings.Contains(pos, "[LIT]int") {
+				// allocating gigabytes is resource exhaustion, which the property excepts
+				if v, err := strconv.ParseFloat(strings.ReplaceAll(lit, "_", ""), 64); err == nil && v > 100000 {
+					continue
+				}
+				if v, err := strconv.ParseInt(strings.ReplaceAll(lit, "_", ""), 0, 64); err == nil && v > 100000 {
+					continue
+				}
+			}
+			src := strings.ReplaceAll(pos, "LIT", lit)
+			s.evalOnce(src, opts[(pi+li)%len(opts)], emptyFS)
+			s.evalOnce(src, []string{"TreeDump", "CodeDump"}, emptyFS)
+			note(src)
+			nlit++
+			if strings.HasPrefix(pos, "import") || strings.HasPrefix(pos, "func") || strings.HasPrefix(pos, "type") || strings.HasPrefix(pos, "const") || strings.HasPrefix(pos, "var") {
+				body := strings.ReplaceAll(strings.ReplaceAll(src, "; f()", ""), "; t.X", "")
+				s.loadOnce(map[string]string{"main/main.go": "package main\n" + body + "\nfunc Main() {}\n"}, "main", opts[(pi+li)%len(opts)])
+				s.loadOnce(map[string]string{"main/main.go": "package main\n" + body + "\nfunc Main() {}\n"}, "main", []string{"TreeDump", "CodeDump"})
+			}
+		}
+	}
+	c.Extra["odd_literal_inputs"] = nlit
+	// (b3) integer literals of valid programs replaced by magnitudes that are table indexes elsewhere in the
+	// VM, compiled and dumped with every option
+	bigInts := []string{"99", "255", "404", "70000", "2147483647", "-1", "-404"}
+	nbig := 0
+	for pi, prog := range seedPrograms {
+		toks := roughTokens(prog)
+		for i, t := range toks {
+			if len(t) == 0 || t[0] < '0' || t[0] > '9' {
+				continue
+			}
+			if c.quick() && (i+pi)%2 != 0 {
+				continue
+			}
+			rep := append([]string{}, toks...)
+			rep[i] = bigInts[(i+pi)%len(bigInts)]
+			files := map[string]string{"main/main.go": joinTokensNL(rep)}
+			s.loadOnce(files, "main", []string{"TreeDump", "CodeDump"})
+			s.loadOnce(files, "main", opts[(pi+i)%len(opts)])
+			nbig++
+		}
+	}
+	for ci, src := range corpus {
+		toks := roughTokens(src)
+		for i, t := range toks {
+			if len(t) == 0 || t[0] < '0' || t[0] > '9' || (c.quick() && (i+ci)%3 != 0) {
+				continue
+			}
+			rep := append([]string{}, toks...)
+			rep[i] = bigInts[(i+ci)%len(bigInts)]
+			s.evalOnce(joinTokens(rep), []string{"TreeDump", "CodeDump"}, emptyFS)
+			nbig++
+		}
+	}
+	c.Extra["integer_literal_mutations"] = nbig
 
 	// (c) raw byte strings
 	nraw := c.pick(3000, 100000)
@@ -548,7 +622,9 @@ func CallIt(f func(int) int) int { return f(1) }
 		"native0": goat.NewFunc(0, 0, func(vm *goat.VM) {}), "native1": goat.NewFunc(1, 1, func(vm *goat.VM, a []goat.Value) goat.Value { return a[0] }),
 		"nativePanic": goat.NewFunc(0, 1, func(vm *goat.VM) goat.Value { panic("native boom") }),
 		"nativeShort": goat.NewFunc(1, 2, func(vm *goat.VM, a []goat.Value) []goat.Value { return nil }),
-		"nativeVar":   goat.NewFunc(1, 1, func(vm *goat.VM, a []goat.Value, va ...goat.Value) []goat.Value { return []goat.Value{goat.Int(len(va))} })}
+		"nativeVar": goat.NewFunc(1, 1, func(vm *goat.VM, a []goat.Value, va ...goat.Value) []goat.Value {
+			return []goat.Value{goat.Int(len(va))}
+		})}
 	for _, vn := range sortedKeys(vals) {
 		for _, args := range argSets[:5] {
 			for x := 0; x <= 2; x++ {
